@@ -23,14 +23,14 @@ Review recorded here:
 """
 import json, glob, sys, re
 
-DROP = [r'^harness-', r'^hang:', r'^canary-after']
+DROP = [r'^harness-', r'^hang:', r'^canary-after', r' fmt dirs=']  # 'fmt dirs=' is the signature shape of an earlier version of the check
 
 ROOT = [
     (r'^fault=index\[len0\] evaluator arg=\(values\)$',
      'Function.Eval takes vs[0] of an argument that evaluated to zero values: any call with a (values) argument, e.g. (list (values)), ends in index out of range'),
-    (r'^fault=index fmt argument-list-exhausted$',
-     'format directives read c.args[c.argPos] (and the v parameter, and ~* targets) without checking that an argument is left: (format nil "~a") ends in index out of range instead of an error about missing arguments'),
-    (r'^fault=.* fmt dirs=', 'format directive(s) {dirs}: Go runtime fault ({kind}) instead of a condition'),
+    (r'^fault=index fmt argument-position-outside-list$',
+     'format directives read c.args[c.argPos] (also for the v parameter, after ~n* / ~n:* / ~n@* jumps, and inside the sublists of ~{ and ~?) without checking that the position is inside the argument list: (format nil "~a") ends in index out of range instead of an error about missing arguments'),
+    (r'^fault=.* fmt dir=', 'format directive ~{dirs}: Go runtime fault ({kind}) instead of a condition'),
     (r'^fault=.* read lead=', 'reader: Go runtime fault ({kind}) on input starting {lead}'),
     (r'^fault=.* fn=', '{fn}: Go runtime fault ({kind}) reported as an error condition instead of an argument/type check'),
     (r'^not-a-condition fn=', '{fn}: signals an object that is not a condition'),
@@ -44,6 +44,8 @@ ROOT = [
 ]
 
 HANGS = [
+    {"signature": "hang fmt ~mincol,0A / ~mincol,0S (column increment 0)",
+     "what": "(format nil \"~5,0A\" 1) never returns: the padding loop of ~A/~S adds colinc pad characters until mincol is reached and colinc = 0 adds none (for len(out)+len(pad) < mincol { for i := colinc; 0 < i; i-- ...). ~mincol,0< and ~n,0T with the same parameter end in integer divide by zero (listed separately). Avoided in generation: ~A/~S whose second parameter is 0, # or v with 0 among the arguments (format.go: fmtRisk, fmt-colinc-zero)."},
     {"signature": "hang fn=common-lisp:do|do* end-test not a list",
      "what": "(do () (t)) never returns: setupDo only installs an end-test form that is a list ((do () ((null x)) ...)); a symbol or literal end-test such as t, done or 1 is silently dropped, test stays nil and the loop runs for ever (same in do*). Hangs the interpreter, not interruptible. Avoided in generation: do/do* with >= 2 arguments in quoted mode, and in raw mode when the 2nd argument is a list (skiptable.go: do-nonlist-end-test)."},
     {"signature": "hang fn=common-lisp:read-line args=(closedstream)",
@@ -65,28 +67,33 @@ def describe(sig, cand_what):
             if m:
                 fn = m.group(1) + (' (special form called with unevaluated arguments)' if m.group(2) else '')
             dirs = ''
-            m = re.search(r'dirs=(.*)$', sig)
+            m = re.search(r'dirs?=(.*)$', sig)
             if m:
                 dirs = m.group(1)
             lead = ''
             m = re.search(r'lead=(.*)$', sig)
             if m:
                 lead = m.group(1)
-            return text.format(kind=kind, fn=fn, dirs=dirs, lead=lead)
+            for k, v in (('{kind}', kind), ('{fn}', fn), ('{dirs}', dirs), ('{lead}', lead)):
+                text = text.replace(k, v)
+            return text
     return None
 
 
 def main():
-    files = sorted(glob.glob('/tmp/emit-c09/*.json'))
+    files = sorted(glob.glob('/tmp/emit-c09/*.json') + glob.glob('/tmp/emit-c09/*/*.json'))
     seen = {}
+    dropped = set()
     for f in files:
         for e in json.load(open(f)):
             sig = e['signature']
             if any(re.search(p, sig) for p in DROP):
-                print('dropped (must not be listed):', sig, file=sys.stderr)
+                dropped.add(sig)
                 continue
             if sig not in seen or len(json.dumps(e['witness'])) < len(json.dumps(seen[sig]['witness'])):
                 seen[sig] = e
+    for sig in sorted(dropped):
+        print('dropped (must not be listed):', sig, file=sys.stderr)
     out = []
     for sig, e in sorted(seen.items()):
         root = describe(sig, e['what'])
